@@ -4,7 +4,7 @@ from facts import *
 
 
 class Await:
-    __slots__ = ("body", "into_bb", "fut_local", "producer", "callee", "poll_bbs", "ready_edge", "ready_bb", "yield_bbs", "polled", "poll_call_bb")
+    __slots__ = ("body", "into_bb", "fut_local", "producer", "callee", "poll_bbs", "ready_edge", "ready_bb", "yield_bbs", "polled", "poll_call_bb", "join", "index")
 
     def __repr__(self):
         return f"Await({self.callee} @bb{self.into_bb})"
@@ -23,6 +23,8 @@ def awaits(body):
         if not _is_into_future(t):
             continue
         a = Await()
+        a.join = None
+        a.index = None
         a.body = body
         a.into_bb = bb
         a.fut_local = operand_local(t["args"][0]) if t["args"] else None
@@ -87,10 +89,41 @@ def awaits(body):
     return out
 
 
+JOIN_COMBINATOR = re.compile(r"futures(_util)?::future::(join\d?|try_join\d?)$|future::(join\d?|try_join\d?)$")
+
+
+def joined_awaits(body):
+    """futures awaited together: `future::join(a(), b()).await` awaits a() and b(). One pseudo-Await per argument of an awaited join combinator that is
+    directly produced by a call: same poll loop / ready edge as the join's own Await (`.join`), the argument's position in `.index`."""
+    if hasattr(body, "_joined_awaits"):
+        return body._joined_awaits
+    out = []
+    for a in awaits(body):
+        if not (a.producer and a.callee and JOIN_COMBINATOR.search(a.callee)):
+            continue
+        for i, arg in enumerate(a.producer[1]["args"]):
+            l = operand_local(arg)
+            if l is None:
+                continue
+            for kind, x, pb in body.prov.direct_producers(l):
+                if kind == "call" and x["callee"]:
+                    j = Await()
+                    for sl in Await.__slots__:
+                        setattr(j, sl, getattr(a, sl, None))
+                    j.producer, j.callee, j.fut_local, j.join, j.index = (pb, x), callee_base(x), l, a, i
+                    out.append(j)
+                    break
+    body._joined_awaits = out
+    return out
+
+
 def await_of_call(body, call_bb):
-    """the Await that awaits the future produced by the call at call_bb (directly), or None"""
+    """the Await that awaits the future produced by the call at call_bb (directly, or together with others through a join combinator), or None"""
     for a in awaits(body):
         if a.producer and a.producer[0] == call_bb:
+            return a
+    for a in joined_awaits(body):
+        if a.producer[0] == call_bb:
             return a
     return None
 
@@ -285,10 +318,13 @@ def bool_atom_desc(body, local, depth=0):
 def call_desc(body, t, bb):
     pv = body.prov
     cb = callee_base(t)
-    args = []
+    args, local_args = [], []
     for a in t["args"]:
         args.append(frozenset(pv.operand_atoms(a)))
-    return ("call", cb, tuple(args), bb)
+        local_args.append(frozenset(pv.operand_atoms(a, interproc=False)))
+    # [4]: the same without following values across calls (what the operands are made of *here*): used where a constant must be the one written at
+    # this site, not one that some caller could have passed
+    return ("call", cb, tuple(args), bb, tuple(local_args))
 
 
 def value_desc(body, local, depth=0):
@@ -674,7 +710,7 @@ def rv_origins(body, rv, bb, x, depth=0, _seen=None):
     return out
 
 
-TRANSPARENT_CALL = re.compile(r"Result::<T, E>::map_err$|ops::Try>::branch$|anyhow::Context<T, E>>::(context|with_context)$|Result::<T, E>::(as_ref|as_mut)$|Option::<T>::(as_ref|as_mut|ok_or|ok_or_else)$")
+TRANSPARENT_CALL = re.compile(r"Result::<T, E>::map_err$|ops::Try>::branch$|anyhow::Context<T, E>>::(context|with_context)$|Result::<T, E>::(as_ref|as_mut)$|Option::<T>::(as_ref|as_mut|as_deref|as_deref_mut|cloned|copied|ok_or|ok_or_else)$")
 
 
 def origins(body, local, depth=0, _seen=None):
